@@ -11,14 +11,14 @@ PRELUDE = "From Unimock Require Import Model.RunConc.\nOpen Scope N_scope.\n"
 def harness_line(case, cid):
     th = " ".join(f"{len(t)} " + " ".join(f"{m}:{a}" for (m, a) in t) if t else "0" for t in case["threads"])
     # shared: the threads use the original by reference instead of clones of it (the model does not distinguish: clones share everything)
-    return " ".join([f"case {cid}", ("partial" if case["partial"] else "strict") + ("S" if case.get("shared") else ""), f"T {len(case['terms'])}"]
+    return " ".join([f"case {cid}", ("partial" if case["partial"] else "strict") + ("S" if case.get("shared") else "") + ("R" if case.get("report") else ""), f"T {len(case['terms'])}"]
                     + [K.term_tok(t) for t in case["terms"]]
                     + [f"TH {len(case['threads'])}", th, f"S {len(case['sched'])}"] + [str(x) for x in case["sched"]])
 
 
 def coq_case(case):
     ths = "; ".join("[" + "; ".join(f"({m}, {a})" for (m, a) in t) + "]" for t in case["threads"])
-    return (f"CKase {'true' if case['partial'] else 'false'} [{'; '.join(K.coq_term(t) for t in case['terms'])}] "
+    return (f"{'CKaseR' if case.get('report') else 'CKase'} {'true' if case['partial'] else 'false'} [{'; '.join(K.coq_term(t) for t in case['terms'])}] "
             f"[{ths}] [{'; '.join(str(x) for x in case['sched'])}]")
 
 
